@@ -15,7 +15,9 @@ EXPLANATION = (
     "index ~ int, non-callable callee => error arm); (DISCHARGE) every operator constraint added with add_constraint is "
     "followed on every success path by check_constraints/unify of the same node; (ACCEPT) the accept sets of "
     "add/sub/mul/div/cmp, of the Neg/Num/Variable handlers and of sub_unify's default arm are exactly the ones the "
-    "property lists (int+str, int==float, -str, void variable ... are errors)."
+    "property lists (int+str, int==float, -str, void variable ... are errors); (COPY-STRUCTURE) instantiating a polymorphic "
+    "function type keeps every operator constraint (same kind, operand edge remapped into the copy), so the mismatch "
+    "rules also hold for calls of unannotated functions."
 )
 UNDECIDED = "that the list of mismatch kinds is complete; precision of inference (over-rejection)."
 
@@ -425,3 +427,5 @@ def run(F, rep, tier):
     rep.floor("DISCHARGE", "operator add_constraint sites", n, 20)
     accept(F, rep)
     obligations(F, rep)
+    import c02
+    c02.copy_structure(F, rep)
